@@ -202,13 +202,28 @@ func (s *SourceControl) ConfigureRoachSource(args *RoachSourceConfig, reply *boo
 // run the closure f at an appropriate point in the data handling cycle
 // and return any error sent on s.queuedRequests.
 func (s *SourceControl) runLaterIfActive(f func()) error {
+	// The source may have stopped by itself (error block, timeout) since the last request.
+	s.handlePossibleStoppedSource()
 	if !s.isSourceActive {
 		return fmt.Errorf("no source is active")
 	}
 	verifPoint("rpc.queue.before")
-	s.queuedRequests <- f
-	verifPoint("rpc.queue.sent")
-	return <-s.queuedResults
+	// The core loop receives requests only while the source runs. If the source ends by itself while
+	// we are waiting to hand over the request, nobody would ever receive it, so keep checking.
+	ticker := time.NewTicker(20 * time.Millisecond)
+	defer ticker.Stop()
+	for {
+		select {
+		case s.queuedRequests <- f:
+			verifPoint("rpc.queue.sent")
+			return <-s.queuedResults
+		case <-ticker.C:
+			if !s.ActiveSource.Running() {
+				s.handlePossibleStoppedSource()
+				return fmt.Errorf("no source is active: the source stopped by itself")
+			}
+		}
+	}
 }
 
 // MixFractionObject is the RPC-usable structure for ConfigureMixFraction
